@@ -1,10 +1,13 @@
 /-
-C07 — property theorems (statements only; helper lemmas live in `Proofs/C07.lean`).
+C07 — property theorems (statements only; helper lemmas live in `Proofs/C07*.lean`).
 All definitions are those of `Model/C07.lean`, which the driver runs.
 -/
 import Mahotas.Proofs.C07
 import Mahotas.Proofs.C07Order
 import Mahotas.Proofs.C07Erode
+import Mahotas.Proofs.C07Wrap
+import Mahotas.Proofs.C07Dilate
+import Mahotas.Properties.C01
 import Mathlib.Algebra.Order.Field.Basic
 import Mathlib.Algebra.Order.Field.Rat
 import Mathlib.Data.Rat.Cast.Order
@@ -329,3 +332,197 @@ example :
       f.getD (clampPos f.shape (addPos [0, 0] k)) 0 ≤ dt.hi) ∧
     C01.erodeSpecAt dt f (fp.map fun k => (k, 0)) [0, 0] = 1 ∧ rankSpecAt .nearest f fp 0 [0, 0] = some 1 := by
   decide
+
+/-! ## Round 3: template_match in the arithmetic of the image dtype; last rank = flat grey dilation -/
+
+/-- **C07-W1 (template_match in the dtype's wrap-around arithmetic).** `tmAtWrap dt` transliterates
+`template_match<T>` operation by operation in the arithmetic of the image dtype `T`: `val - tj` (or
+`tj - val`), `delta*delta` and `diff2 + delta*delta` are evaluated in the promoted type (`int`, 32 bits,
+for 8- and 16-bit `T` — where `65535*65535` overflows `int` and wraps under `-fno-strict-overflow` —
+and `T` itself for 32- and 64-bit `T`), each wrapping there, and `delta` and the new `diff2` are
+converted back to `T`. For each of the eight integer dtypes of numpy (`uint8 … uint64`, `int8 … int64`),
+every border mode, every image and template of any shape and any stored values, at every pixel this
+equals the exact sum of squared differences of the model `tmAt` reduced modulo `2^bits` into the range
+of `T` (`DT.wrap`) — also when the absolute difference `val - tj` itself overflows a signed `T`
+(its square is still right modulo `2^bits`). Consequently, with positive axis lengths it equals the
+specification `tmSpecAt` (sum of squared differences over the samples of the border rule) reduced
+into `T`, and equals `tmSpecAt` itself wherever that value lies in the range of `T`; no condition on
+the intermediate quantities is needed. Floating-point dtypes are not covered by this model. -/
+theorem C07_template_match_wrapping (dt : DT) (hdt : dt ∈ intDTs) (m : Mode) (f : Img Int)
+    (tshape : List Nat) (t : Array Int) (p : List Int) :
+    tmAtWrap dt m f tshape t p = dt.wrap (tmAt m f tshape t p) ∧
+    ((∀ d ∈ f.shape, 0 < d) →
+      tmAtWrap dt m f tshape t p = dt.wrap (tmSpecAt m f tshape t p) ∧
+      (dt.lo ≤ tmSpecAt m f tshape t p ∧ tmSpecAt m f tshape t p ≤ dt.hi →
+        tmAtWrap dt m f tshape t p = tmSpecAt m f tshape t p)) := by
+  obtain ⟨hb, h0, hd⟩ := intDTs_ok dt hdt
+  have h := tmAtWrap_eq_wrap dt hb h0 hd m f tshape t p
+  refine ⟨h, fun hs => ?_⟩
+  rw [h, C07_template_match_ssd m f hs tshape t p]
+  exact ⟨rfl, fun hfit => DT.wrap_in dt _ hfit⟩
+
+/-- **C07-W1' (the same for any dtype shape).** The statement of `C07_template_match_wrapping` holds
+for every non-boolean integer range `[lo, hi]` that contains 0 and whose size divides the size of the
+type its operands are promoted to (true of every two's-complement type of at most 16 bits, promoted to
+the 32-bit `int`, and of every wider type, which is its own promoted type). -/
+theorem C07_template_match_wrapping_generic (dt : DT) (hb : dt.isBool = false)
+    (h0 : dt.lo ≤ 0 ∧ 0 ≤ dt.hi) (hd : dt.card ∣ (promote dt).card) (m : Mode) (f : Img Int)
+    (tshape : List Nat) (t : Array Int) (p : List Int) :
+    tmAtWrap dt m f tshape t p = dt.wrap (tmAt m f tshape t p) :=
+  tmAtWrap_eq_wrap dt hb h0 hd m f tshape t p
+
+/-- **C07-W2 (template_match on bool images).** For `T = bool` (operands promoted to `int`, conversion
+back to `bool` = "non-zero") and 0/1 data the wrapping model gives 1 exactly when the exact sum of
+squared differences is not zero — with positive axis lengths: exactly when the template differs from
+the window somewhere on the samples the border rule provides (`tmSpecAt ≠ 0`); not the sum modulo 2. -/
+theorem C07_template_match_bool (m : Mode) (f : Img Int) (tshape : List Nat) (t : Array Int)
+    (p : List Int) (hf : ∀ q, f.getD q 0 = 0 ∨ f.getD q 0 = 1) (ht : ∀ j, t.getD j 0 = 0 ∨ t.getD j 0 = 1) :
+    tmAtWrap dtBool m f tshape t p = (if tmAt m f tshape t p = 0 then 0 else 1) ∧
+    ((∀ d ∈ f.shape, 0 < d) →
+      tmAtWrap dtBool m f tshape t p = if tmSpecAt m f tshape t p = 0 then 0 else 1) := by
+  have h := tmAtWrap_bool m f tshape t p hf ht
+  refine ⟨h, fun hs => ?_⟩
+  rw [h, C07_template_match_ssd m f hs tshape t p]
+
+/-- **C07-R3'' (the last rank in `nearest` mode = flat grey dilation of C01 by the reflected element).**
+For a signed, non-boolean dtype (`lo ≠ 0`, so that height 0 marks a member of a structuring element and
+nothing is added), a completely stored image with positive axis lengths, a pixel `p` of the image, a
+non-empty list `fp` of neighbourhood offsets of the image's rank (for `rank_filter`: `footprint bshape Bc`,
+offsets `k − shape/2` of the non-zero entries) and samples at `p` inside the dtype range:
+`rank_filter(f, Bc, N2 − 1, mode='nearest')[p]` (`N2` = number of members) is the value the gather
+*specification* of C01 gives for the grey dilation of `f` at `p` by the flat structuring element whose
+support is the *reflection* `{−k : k ∈ fp}` of the neighbourhood through the centre, with height 0:
+`max_k f[clamp(p − (−k))] = max_k f[clamp(p + k)]`. The theorem is about offset lists, so even-sized
+neighbourhoods are covered: for an even axis length the reflected offsets `−(k − shape/2)` are *not*
+the offsets of the flipped array `Bc[::-1]` about its own centre `shape/2` (they are shifted by one), so
+`rank_filter(f, Bc, N2−1)` equals the dilation by the flipped array only for odd shapes; in terms of
+supports there is no such restriction. For unsigned dtypes a 0/1 `Bc` is not a flat element for `dilate`
+(height 1 is added), as for the erosion link. Where C01's theorems show that the scatter kernel
+`dilateModel` equals `dilateSpecAt` (box-interior pixels, or star-shaped flat elements everywhere), the
+last rank therefore equals the output of the model of `dilate` itself. -/
+theorem C07_last_rank_is_flat_dilation (dt : DT) (hb : dt.isBool = false) (hlo : dt.lo ≠ 0) (f : Img Int)
+    (hs : ∀ d ∈ f.shape, 0 < d) (hsz : shapeSize f.shape ≤ f.data.size) (fp : List (List Int))
+    (hfp : fp ≠ []) (hlen : ∀ k ∈ fp, k.length = f.shape.length) (p : List Int)
+    (hp : inside f.shape p = true)
+    (hrange : ∀ k ∈ fp, dt.lo ≤ f.getD (clampPos f.shape (addPos p k)) 0 ∧
+      f.getD (clampPos f.shape (addPos p k)) 0 ≤ dt.hi) :
+    rankAt .nearest f fp ((fp.length : Int) - 1) p =
+      some (C01.dilateSpecAt dt f (fp.map fun k => (negPos k, 0)) p) := by
+  have hsamp := specSamples_nearest f fp p
+  have hne : specSamples .nearest f fp p ≠ [] := by
+    rw [hsamp]; simpa using hfp
+  obtain ⟨_, hi, hhi1, hhi2, hhi3⟩ := C07_rank_extremes .nearest f hs fp p hne
+  rw [hhi1, dilateSpecAt_flat_reflected dt hb hlo f hs hsz fp hlen p hp hrange, ← hsamp]
+  congr 1
+  apply Int.le_antisymm
+  · exact C01.le_listMax_of_mem _ _ _ hhi2
+  · apply C01.listMax_le _ _ _ _ hhi3
+    rw [hsamp] at hhi2
+    obtain ⟨k, hk, hke⟩ := List.mem_map.1 hhi2
+    rw [← hke]
+    exact (hrange k hk).1
+
+/-- non-vacuity of `C07_template_match_wrapping`: uint8 image `[0, 250, 100]`, template `[255, 1]`
+    (centre 1), nearest mode: the exact sums 65026, 127026, 9826 wrap to 2, 50, 98; int8 with
+    `val − tj = 127 − (−128) = 255` (overflows int8 as −1, square 1): 65026 ↦ 2; uint16
+    `65535² + 65535²` overflows `int` twice on the way and still wraps to 2; an in-range pixel agrees
+    with the specification; bool: two differences give `true`, not `2 mod 2` -/
+example :
+    let f : Img Int := { shape := [3], data := #[0, 250, 100] }
+    dtU 8 ∈ intDTs ∧ dtI 8 ∈ intDTs ∧ dtU 16 ∈ intDTs ∧ (∀ d ∈ f.shape, 0 < d) ∧
+    (allPos [3]).map (tmSpecAt .nearest f [2] #[255, 1]) = [65026, 127026, 9826] ∧
+    (allPos [3]).map (tmAtWrap (dtU 8) .nearest f [2] #[255, 1]) = [2, 50, 98] ∧
+    tmAtWrap (dtI 8) .nearest { shape := [1], data := #[127] } [2] #[-128, -128] [0] = 2 ∧
+    tmAtWrap (dtU 16) .nearest { shape := [1], data := #[65535] } [2] #[0, 0] [0] = 2 ∧
+    tmSpecAt .nearest f [2] #[3, 247] [1] = 18 ∧ tmAtWrap (dtU 8) .nearest f [2] #[3, 247] [1] = 18 ∧
+    tmAtWrap dtBool .nearest { shape := [2], data := #[0, 1] } [2] #[1, 0] [1] = 1 ∧
+    tmAt .nearest { shape := [2], data := #[0, 1] } [2] #[1, 0] [1] = 2 := by
+  decide
+
+/-- the hypotheses of `C07_last_rank_is_flat_dilation` are met (int8, 3×3 cross, corner pixel): both
+    sides are 7. The even 2×2 box has offsets `{−1,0}²`; at pixel (1,1) the last rank reads rows/columns
+    0..1 (maximum 7) and so does the dilation by the reflected support `{0,1}²`, whereas the dilation by
+    the unreflected support (= the support of the flipped all-ones 2×2 array) reads
+    `clamp((1,1) + {0,1}²)` and yields 3. -/
+example :
+    let dt : DT := { lo := -128, hi := 127 }
+    let f : Img Int := { shape := [2, 2], data := #[7, 1, 5, 3] }
+    let fp := footprint [3, 3] #[0, 1, 0, 1, 1, 1, 0, 1, 0]
+    let fp2 := footprint [2, 2] #[1, 1, 1, 1]
+    dt.isBool = false ∧ dt.lo ≠ 0 ∧ (∀ d ∈ f.shape, 0 < d) ∧ shapeSize f.shape ≤ f.data.size ∧ fp ≠ [] ∧
+    (∀ k ∈ fp, k.length = f.shape.length) ∧ inside f.shape [0, 0] = true ∧
+    (∀ k ∈ fp, dt.lo ≤ f.getD (clampPos f.shape (addPos [0, 0] k)) 0 ∧
+      f.getD (clampPos f.shape (addPos [0, 0] k)) 0 ≤ dt.hi) ∧
+    C01.dilateSpecAt dt f (fp.map fun k => (negPos k, 0)) [0, 0] = 7 ∧
+    rankSpecAt .nearest f fp 4 [0, 0] = some 7 ∧
+    fp2 = [[-1, -1], [-1, 0], [0, -1], [0, 0]] ∧
+    C01.dilateSpecAt dt f (fp2.map fun k => (negPos k, 0)) [1, 1] = 7 ∧
+    rankSpecAt .nearest f fp2 3 [1, 1] = some 7 ∧
+    C01.dilateSpecAt dt f (fp2.map fun k => (k, 0)) [1, 1] = 3 := by
+  decide
+
+/-- **C07-R3k (the last rank = the output of the `dilate` kernel, where C01 proves kernel = definition).**
+Let `dt` be a signed integer dtype, `f` a completely stored image with positive axis lengths and all
+values in the dtype range, `fp` a non-empty list of neighbourhood offsets whose reflections `−k` are
+offsets of an element box `bshape` of the image's rank, and `p` a pixel of the image such that either
+the reflected support is coordinate-wise star-shaped (`C01.starShaped`, true of centred crosses, boxes,
+disks) or the box placed at `p` and its reflection lie inside the image (`C01.boxInterior`). Then
+`rank_filter(f, Bc, N2 − 1, mode='nearest')[p]` equals the cell of `p` in the model of the generic
+scatter kernel `dilate<T>` (`C01.dilateModel`, the definition C01's driver runs) applied to `f` and the
+flat structuring element with support `{−k : k ∈ fp}` and height 0
+(`C07_last_rank_is_flat_dilation` composed with `C01_dilate_eq_spec_where_observed`). -/
+theorem C07_last_rank_eq_dilate_kernel (dt : DT) (wf : dt.WF) (hlo : dt.lo ≠ 0) (f : Img Int)
+    (hs : ∀ d ∈ f.shape, 0 < d) (hsz : shapeSize f.shape ≤ f.data.size) (bshape : List Nat)
+    (hl : bshape.length = f.shape.length) (fp : List (List Int)) (hfp : fp ≠ [])
+    (hbox : ∀ k ∈ fp, negPos k ∈ C01.boxOffsets bshape) (hA : C01.ImageInRange dt f) (p : List Int)
+    (hp : inside f.shape p = true)
+    (hobs : C01.starShaped bshape (fp.map negPos) = true ∨ C01.boxInterior f.shape bshape p = true) :
+    rankAt .nearest f fp ((fp.length : Int) - 1) p =
+      some ((C01.dilateModel dt f (fp.map fun k => (negPos k, 0))).getD (ravelI f.shape p) dt.lo) := by
+  have hb : dt.isBool = false := wf.notBool
+  have hlen : ∀ k ∈ fp, k.length = f.shape.length := by
+    intro k hk
+    have := C01.boxOffsets_length bshape _ (hbox k hk)
+    rw [← hl, ← this]; simp [negPos]
+  have h0 : dt.InRange 0 := by
+    have := wf.hi_pos
+    rcases wf.lo_cases with h | h <;> unfold DT.InRange <;> omega
+  have hmem : (fp.map fun k => ((negPos k, 0) : List Int × Int)).filter (C01.isMember dt) =
+      fp.map fun k => ((negPos k, 0) : List Int × Int) := by
+    rw [List.filter_eq_self]
+    intro a ha
+    obtain ⟨k, _, rfl⟩ := List.mem_map.1 ha
+    simp [C01.isMember, hb, Ne.symm hlo]
+  rw [C07_last_rank_is_flat_dilation dt hb hlo f hs hsz fp hfp hlen p hp (fun k _ => hA _)]
+  congr 1
+  symm
+  apply C01_dilate_eq_spec_where_observed dt (Or.inl wf) f bshape _ p hs hl
+  · intro kh hkh
+    obtain ⟨k, hk, rfl⟩ := List.mem_map.1 hkh
+    exact hbox k hk
+  · exact hA
+  · intro kh hkh
+    obtain ⟨k, _, rfl⟩ := List.mem_map.1 hkh
+    exact ⟨h0, Or.inl (Int.le_refl 0), fun h => by rw [hb] at h; cases h⟩
+  · exact hp
+  · rw [hmem, List.map_map, List.map_map]
+    have hfl : C01.flatHeights (fp.map ((fun x : List Int × Int => x.2) ∘ fun k => (negPos k, 0))) = true := by
+      cases fp with
+      | nil => rfl
+      | cons a t => simp [C01.flatHeights]
+    have hst : (fp.map ((fun x : List Int × Int => x.1) ∘ fun k => (negPos k, 0))) = fp.map negPos := by
+      apply List.map_congr_left; intro k _; rfl
+    rw [hfl, hst]
+    rcases hobs with h | h <;> simp [h]
+
+/-- non-vacuity of `C07_last_rank_eq_dilate_kernel`: int8, 3×3 cross (symmetric, star-shaped) on the
+    2×2 image, every pixel; the scatter kernel of C01 and the last rank both give `[7, 7, 7, 5]` -/
+example :
+    let dt : DT := dtI 8
+    let f : Img Int := { shape := [2, 2], data := #[7, 1, 5, 3] }
+    let fp := footprint [3, 3] #[0, 1, 0, 1, 1, 1, 0, 1, 0]
+    dt.lo ≠ 0 ∧ (∀ d ∈ f.shape, 0 < d) ∧ shapeSize f.shape ≤ f.data.size ∧ fp ≠ [] ∧
+    (∀ k ∈ fp, negPos k ∈ C01.boxOffsets [3, 3]) ∧ C01.starShaped [3, 3] (fp.map negPos) = true ∧
+    (C01.dilateModel dt f (fp.map fun k => (negPos k, 0))).toList = [7, 7, 7, 5] ∧
+    (allPos f.shape).map (rankSpecAt .nearest f fp 4) = [some 7, some 7, some 7, some 5] := by
+  decide +kernel
